@@ -509,6 +509,14 @@ def check(pid, tier, seed):
             thm_failures.append(("<source scan>", "forbidden tokens: " + "; ".join(hits[:5])))
         if build_log and thm_failures:
             log(build_log[-3000:])
+        if tier == "thorough" and not thm_failures:
+            # independent re-check of the compiled proof terms by the toolchain's own checker
+            with Lock("lake"):
+                rc_lc, out_lc, err_lc = sh(["lake", "env", "leanchecker", module], cwd=LEAN, check=False,
+                                           timeout=3600)
+            coverage["leanchecker"] = "ok" if rc_lc == 0 else (out_lc + err_lc)[-500:]
+            if rc_lc != 0:
+                thm_failures.append(("<leanchecker>", f"leanchecker rejected {module}"))
     rc, out = lake_build(["emlmodel"])
     if rc != 0:
         raise MachineryError("lake build emlmodel failed:\n" + out[-4000:])
